@@ -1,7 +1,7 @@
 """C13 -- results are local: a pixel depends on its neighbourhood, not on its position.
 
 Theorems: Props/C13.v (locality of the cost SPEC, of the sad/ssd MODEL, of the criteria flags, of
-        winner-takes-all, refinement, median filter, cross-checking, of every pipeline of these steps;
+        winner-takes-all, refinement, median and bilateral filters, cross-checking, of every pipeline of these steps;
         crop invariance).  The per-step models are tied to the code by the correspondences of
         C02/C03/C04/C06/C07/C10; nothing new is hand-modelled here except the glue Model/Local.v.
 T-corr: the cone / margin of each pipeline is computed by the EXTRACTED [kpipe_rad] (the radii of the
@@ -34,8 +34,8 @@ RULE = ("a case = one scene (24-40 x 40-64 pair, integer radiometry inside the e
         ">= 1 flagged pixel; distinct by (pipeline, scene digest, crop)")
 ASSUMES = [
     "the per-step models are those of C02/C03/C04/C06/C07/C10 (their correspondences tie them to the code); the "
-    "theorem for pipelines covers sad/ssd + validity mask, wta, vfit/quadratic, median, cross-checking "
-    "(C13_pipeline_local_partial); census/zncc are covered at spec level; cbca, bilateral and the vertical flip are "
+    "theorem for pipelines covers sad/ssd + validity mask, wta, vfit/quadratic, median, bilateral, cross-checking "
+    "(C13_pipeline_local_partial); census/zncc are covered at spec level; cbca and the vertical flip are "
     "covered by these metamorphic runs only",
     "side condition of cross-checking locality (px_ok): a still-valid pixel holds a disparity that rounds into its "
     "interval; checked on the final maps of every run",
